@@ -239,6 +239,16 @@ def run(ctx, anchors=None):
                 ctx.ok("R09.3", "p2sh-use=%s:if" % f.name, f.loc(n), "F4: conjunct of a branch head")
             else:
                 ctx.fail("R09.3", "p2sh-use=%s:%s" % (f.name, astq.estr(par)[:30] if par is not None else "?"), f.loc(n), "is_p2sh is used other than as a branch head")
+    # every definition of is_p2sh carries the flag (a definition that lost its flag read is not seen by the read classifier)
+    for fid in sorted(reach):
+        f = fb.funcs[fid]
+        for n in f.nodes():
+            if n["k"] == "assign" and astq.estr(n["lhs"]).split(".")[-1] == "is_p2sh" and astq.const_value(n["rhs"]) != 0:
+                cj = [astq.estr(c) for c in S.conjuncts(n["rhs"])]
+                ctx.site()
+                ctx.inst(any("SCRIPT_VERIFY_P2SH" in c and "flags" in c and not c.startswith("!") for c in cj), "R09.3", "p2sh-definition-has-flag@" + f.name, f.loc(n),
+                         "F4: is_p2sh is a conjunction with the P2SH flag as positive conjunct",
+                         "F4: is_p2sh is defined as `%s` without the SCRIPT_VERIFY_P2SH conjunct: the redeem script runs whether or not the flag is set" % " && ".join(cj)[:100])
     ctx.extra["flag_reads"] = nreads
     ctx.extra["fRequireMinimal_uses"] = nuse
 
